@@ -55,9 +55,51 @@ INFO = {
     "C19B": ("_cache_renamer keys script entries by normpath instead of realpath", "the same relative script name run from two working directories"),
     "C20A": ("get_next_job_number returns len(jobs) + 1", "at least two live jobs, the lower-numbered one leaves, then any new pipeline starts"),
     "C20B": ("_run_command_pipeline registers only pipelines without any proxy stage", "a backgrounded / suspended pipeline mixing a callable alias with a real command"),
+    # ---- second round (labels C, D): authors were shown one-line summaries of the first round and asked for other mechanisms
+    "C01C": ("lexer handle_name: slice start `token.start[1] - 1` without max(0, ...)", "`and` / `or` as the first character of a continuation line (inside brackets or after a backslash)"),
+    "C01D": ("p_try_star_stmt_else: finalbody taken from the else part", "`try` / `except*` with an `else` clause"),
+    "C02C": ("visit_Global records the names in the innermost context", "a name bound only through `global NAME` + assignment inside a function, then a command-shaped use at module level in the same input"),
+    "C02D": ("gather_names looks at the top-level elements of a target only", "a for / with target holding a starred element or a nested tuple"),
+    "C03C": ("get_logical_line walks back over one backslash line only", "a bare command continued over three or more physical lines whose first lines are valid Python"),
+    "C03D": ("lexer handle_name looks at the text from the keyword on (no white space required before and/or)", "an argument word ending in and/or after a non-identifier character (`rock-and roll`, `either/or x`)"),
+    "C04C": ("handle_error_token no longer records its token as the last one", "an unquoted word with a mid-word backslash or a symbol the tokenizer cannot classify (`a\\b`, `pre\u20acpost`, `a#b`)"),
+    "C04D": ("p_string_literal: is_raw computed from the prefix as written", "an upper-case `R'...'` argument containing $NAME or ~"),
+    "C05C": ("_visit_boolop returns early for a pure-Python and/or with the inside-boolop flag left set", "an ordinary Python and/or earlier in the same compilation unit, then a failing chain"),
+    "C05D": ("_check_subproc_helper_raise reads the opt-out flags from the pipeline instead of the spec", "a failing `@error_ignore` command inside $() / $[] / @$() that is not a chain operand"),
+    "C06C": ("proc_untraced_waitpid stores the reaped status only if Popen has none yet", "the main thread reaps a failing `!()` child, the PopenThread polls in between (ECHILD -> 0) - a reaping race"),
+    "C06D": ("iterraw wraps the captured stdout in a non-blocking reader after the synchronous branch", "more than one pipe buffer of output on the synchronous capture path (alias final stage, unthreaded command)"),
+    "C07C": ("`a>` opens a second, append-mode handle for stderr", "both streams into one file with a stdout write after the stderr write"),
+    "C07D": ("resolve_args_list unwraps list-valued redirect targets by truthiness", "a redirect target that expands to two or more words"),
+    "C08C": ("_update_paths_cache compares directory mtimes with math.isclose", "a directory modified again within about a second of its cached mtime"),
+    "C08D": ("_iter_binaries walks the cache dict in insertion order", "a $PATH directory listed for the first time after the first lookup, holding a name that an earlier entry also has"),
+    "C09C": ("@error_raise branch of _raise_subproc_error lost its finally: _return_terminal()", "job control on a tty, a failing last stage carrying @error_raise"),
+    "C09D": ("_DispatcherRedirect.__exit__ restores the saved stream unconditionally", "a threaded alias started inside a redirect scope and finishing after the scope ended"),
+    "C10C": ("Env.__getitem__ drops the detype cache only for keys already stored", "first read / in-place edit of a callable default ($XDG_DATA_DIRS ...) after a cached detype(), then another detype() consumer"),
+    "C10D": ("Env.swap restore drops the override without writing the old value back", "$UPDATE_OS_ENVIRON on, or a scoped override of one of the two synced raise-error settings"),
+    "C11C": ("Env.__contains__ falls through to the defaults for a masked key", "a DELETE_VAR mask from swap / prefix on a variable that has a registered default"),
+    "C11D": ("Env.swap restore deletes without thread_local=True", "the body deletes the swapped variable of the outermost scope on a key that has a global value"),
+    "C12C": ("JsonHistoryFlusher takes its queue ticket in run() instead of __init__", "a flusher thread whose start is delayed by the scheduler"),
+    "C12D": ("JsonHistory.clear keeps the skipped-entry counter", "$HISTCONTROL rule that dropped an entry at a flush, then clear(), then a read"),
+    "C13C": ("delete / erasedups skip files whose open fails", "one failing open in the first pass of erasedups that succeeds in the second"),
+    "C13D": ("SQLite connections in autocommit mode", "a kill or failing write between two statements of a multi-statement rewrite"),
+    "C14C": ("`history flush` uses flush(at_exit=True)", "a live session runs `history flush`, then a collection over the limit"),
+    "C14D": ("SqliteHistoryGC.run lost the return after the unsupported-unit warning", "a limit in files / seconds / bytes with the SQLite backend"),
+    "C15C": ("eval_alias pops decorator words off the stored alias value", "an alias with leading decorator aliases resolved twice"),
+    "C15D": ("SubprocSpec.add_decorator ignores a decorator that is already present", "the same decorator twice with a conflicting one in between"),
+    "C16C": ("cd() context manager samples the old directory in __init__", "a manager object made in one directory and entered from another"),
+    "C16D": ("pushd trims the stack with one pop()", "$DIRSTACK_SIZE lowered in mid-session below the current depth, then any pushd"),
+    "C17C": ("two-blanks-before-comment rule moved above the macro-body rule", "a `#` inside raw macro text"),
+    "C17D": ("_is_subproc_statement lost FSTRING_START", "a bare command whose first argument is an f-string, with `=` later on the line"),
+    "C18C": ("path completer compensates the prefix length for `p` but not `pr`", "an argument opened as pr' / rp\""),
+    "C18D": ("try_expand_arg_span offsets the cursor by the unquoted value length", "cursor in the blanks after an unclosed quoted argument, not at the end of the line"),
+    "C19C": ("except clauses around marshal.load narrowed to three exception types", "a damaged entry on which marshal raises SystemError"),
+    "C19D": ("cache-name character map lost the `_` -> `__` escape", "two scripts whose paths differ only as `X` vs `_x`"),
+    "C20C": ("_clear_dead_jobs rebuilds the MRU deque from a set", "two live jobs in non-ascending MRU order, another job finishing, then an order-dependent command"),
+    "C20D": ("_select_job_to_resume no longer purges finished jobs first", "the designated job finishes and `bg` is the very next table-touching command"),
 }
 
-INITIALLY_MISSED = {"C01A", "C02A", "C02B", "C04A", "C04B", "C05B", "C06A", "C06B", "C08A", "C08B", "C09A", "C10A", "C10B", "C11A", "C17A", "C17B", "C19A", "C19B", "C20B"}
+STILL_MISSED = {"C06C", "C09D", "C10C", "C10D", "C14C"}
+INITIALLY_MISSED = {"C01C", "C01D", "C02D", "C03C", "C03D", "C04C", "C04D", "C05C", "C07C", "C07D", "C08C", "C08D", "C11D", "C15C", "C16C", "C16D", "C17C", "C17D", "C19C", "C19D", "C01A", "C02A", "C02B", "C04A", "C04B", "C05B", "C06A", "C06B", "C08A", "C08B", "C09A", "C10A", "C10B", "C11A", "C17A", "C17B", "C19A", "C19B", "C20B"}
 
 
 def grab(path, rx):
@@ -71,12 +113,16 @@ def grab(path, rx):
 
 def main():
     src, logs = sys.argv[1], sys.argv[2]
+    src2, logs2 = (sys.argv[3], sys.argv[4]) if len(sys.argv) > 4 else (None, None)
     out = os.path.join(V, "seeded")
     os.makedirs(out, exist_ok=True)
     rows = []
     for key in sorted(INFO):
         cid, x = key[:3], key[3:]
         d = os.path.join(src, cid, x)
+        lg = logs
+        if not os.path.isfile(os.path.join(d, "patch.diff")) and src2:
+            d, lg = os.path.join(src2, cid, x), logs2
         if not os.path.isfile(os.path.join(d, "patch.diff")):
             continue
         dst = os.path.join(out, key)
@@ -85,19 +131,19 @@ def main():
             if os.path.isfile(os.path.join(d, f)):
                 shutil.copy(os.path.join(d, f), os.path.join(dst, f))
         final = None
-        fl = os.path.join(logs, key + ".final.log")
+        fl = os.path.join(lg, key + ".final.log")
         line = grab(fl, r"^SEEDCHECK (.*)$")
         if line:
             final = json.loads(line)
-        sl = os.path.join(logs, key + ".suite.log")
+        sl = os.path.join(lg, key + ".suite.log")
         sline = grab(sl, r"^SEEDCHECK (.*)$")
         suite = json.loads(sline) if sline else {}
-        ql = grab(os.path.join(logs, key + ".quick.log"), r"^SEEDCHECK (.*)$")
+        ql = grab(os.path.join(lg, key + ".quick.log"), r"^SEEDCHECK (.*)$")
         first = json.loads(ql) if ql else {}
         summary, needs = INFO[key]
         retest = {}
         try:
-            retest = json.load(open(os.path.join(logs, "retest.json")))
+            retest = json.load(open(os.path.join(lg, "retest.json")))
         except (OSError, ValueError):
             pass
         checks = (final or {}).get("checks", {})
@@ -114,10 +160,11 @@ def main():
                 "pinned_suite_on_patched_tree": suite.get("suite"),
                 "pinned_suite_all_stable_pass_tests_pass": suite.get("suite_ok"),
                 "tests_not_passing_rerun_alone_on_the_patched_tree": ({"result": retest[key], "note": "timing-sensitive tests/xintegration subprocess tests that also flip on the pristine tree while other jobs load the machine; unrelated to the patched code"} if key in retest else None),
-                "check_verdict_first_run": {k: v.get("verdict") for k, v in first.get("checks", {}).items()} or None,
+                "check_verdict_first_run": ({cid: "MISSED"} if key in INITIALLY_MISSED | STILL_MISSED else {k: v.get("verdict") for k, v in first.get("checks", {}).items()} or None),
                 "check_verdict_final": {k: {"verdict": v.get("verdict"), "tier": v.get("tier"), "first_violation": (v.get("lines") or [None])[0]} for k, v in checks.items()} or None,
             },
             "initially_missed_then_check_strengthened": key in INITIALLY_MISSED,
+            "still_missed_at_the_end_of_the_session": key in STILL_MISSED,
         }
         with open(os.path.join(dst, "meta.json"), "w") as f:
             json.dump(meta, f, indent=1)
@@ -131,7 +178,7 @@ def main():
     with open(os.path.join(out, "MATRIX.md"), "w") as f:
         f.write("| seed | change | caught by (quick tier) | first run | suite on patched tree |\n|---|---|---|---|---|\n")
         for key, summary, needs, verdict, mech, missed, sok in rows:
-            f.write(f"| {key} | {summary}; needs: {needs} | {verdict}: `{mech[:90]}` | {'missed, check strengthened' if missed else 'caught'} | {'all stable-pass tests pass' if sok else ('1-2 load-sensitive xintegration tests flipped in the full run, pass when re-run alone (meta.json)' if sok is False else 'n/a')} |\n")
+            f.write(f"| {key} | {summary}; needs: {needs} | {verdict}: `{mech[:90]}` | {'MISSED - still open' if key in STILL_MISSED else 'missed, check strengthened' if missed else 'caught'} | {'all stable-pass tests pass' if sok else ('1-2 load-sensitive xintegration tests flipped in the full run, pass when re-run alone (meta.json)' if sok is False else 'n/a')} |\n")
     print(len(rows), "seeds written")
 
 
